@@ -37,7 +37,7 @@ def same(a, b):
 
 def run_case(ctx, nix, np, path, rng, rep):
     import h5py
-    spec = {"text": (str, lambda: rng.choice(["a", "üñ", "", "x y", "long" * 20, "∂"])),
+    spec = {"text": (str, lambda: rng.choice(["a", "üñ", "", "x y", "long" * 20, "∂", "Cafe\u0301", "\u2126", "\U0001f9ea", "trail "])),
             "int": (nix.DataType.Int64, lambda: rng.choice([rng.randint(-2 ** 40, 2 ** 40), 2 ** 63 - 1, -2 ** 63, 0])),
             "float": (nix.DataType.Double, lambda: rng.choice([0.5, -1.25, 1e300, float("inf"), 2.0, -0.0, float("nan"), 5e-324])),
             "bool": (nix.DataType.Bool, lambda: rng.random() < 0.5),
